@@ -65,3 +65,24 @@ def CUT(name):
 def hash_parts(*parts):
     """hash of the tuple of the given strings"""
     return hash(tuple(parts))
+
+
+def segs_no_dots(segs):
+    return all(s not in (".", "..") for s in segs)
+
+
+def segs_no_dots_upto(segs, k):
+    return all(s not in (".", "..") for s in segs[:k])
+
+
+def segs_prefix_equal(a, b, k):
+    return list(a) == list(b[:k])
+
+
+def segs_step(old, seg, new):
+    old, new = list(old), list(new)
+    if seg == "..":
+        return new == (old[:-1] if old else old)
+    if seg == ".":
+        return new == old
+    return new == old + [seg]
